@@ -271,8 +271,43 @@ func boundaryKeys(rng *RNG, bounds [][]byte) [][]byte {
 	return keys
 }
 
+// skLine: createRegionSearchKey on a table name that lives in a larger buffer (cap > len, as a name
+// cut out of a request or a pooled buffer does): the key is what the model says, the bytes behind
+// the table name stay what they were, and a key built earlier from the same slice stays intact.
+func skLine(table, key, key2 []byte) string {
+	buf := make([]byte, len(table), len(table)+len(key)+len(key2)+64)
+	copy(buf, table)
+	tail := buf[len(table):cap(buf)]
+	for i := range tail {
+		tail[i] = 0xA5
+	}
+	k1 := gohbase.VerifSearchKey(buf, key)
+	k1copy := append([]byte{}, k1...)
+	tailChanged := 0
+	for _, b := range tail {
+		if b != 0xA5 {
+			tailChanged++
+		}
+	}
+	gohbase.VerifSearchKey(buf, key2)
+	shared := 0
+	if !bytes.Equal(k1, k1copy) {
+		shared = 1
+	}
+	return fmt.Sprintf("c01 sk %s %s %s tail=%d shared=%d table=%v", hx(table), hx(key), hx(k1copy), tailChanged, shared, bytes.Equal(buf, table))
+}
+
 func runC01(tier string, seed uint64, out *Out) {
 	quietLogs()
+	for _, t := range [][]byte{[]byte("t"), []byte("ns:tbl"), []byte("a,b")} {
+		for _, k := range [][]byte{{}, []byte("k"), []byte("row,1"), bytes.Repeat([]byte{0xff}, 40)} {
+			if !out.Want() {
+				out.n++
+				continue
+			}
+			out.Line("%s", skLine(t, k, []byte("zz-other")))
+		}
+	}
 	lookTables := fqTables(stdTables)
 	smallKeys := allStrings([]byte{0x00, ',', 'a', 'b', 0xff}, 2)
 	abcKeys := allStrings([]byte{0x00, 'a', 'b', 'c', 0xff}, 2)
